@@ -430,3 +430,476 @@ theorem drainRaw_ok (fuel : Nat) (r : Rd) (s : Src) (wire rest : Bytes)
         · rw [hb1, hge]; simp
 
 end Ws.RdProof
+
+namespace Ws.RdProof
+open Ws Ws.Spec
+
+theorem readHeaderUtil_src (s : Src) :
+    (readHeaderUtil s).2.chunks.length ≤ s.chunks.length ∧ (readHeaderUtil s).2.dataWithFin = s.dataWithFin := by
+  have h1 := readFull_chunks s 2
+  unfold readHeaderUtil
+  rcases hr : s.readFull 2 with ⟨res, s1⟩
+  rw [hr] at h1
+  simp only at h1
+  cases res with
+  | error e => simpa using h1
+  | ok bs =>
+    match bs with
+    | [] => simpa using h1
+    | [_] => simpa using h1
+    | _ :: _ :: _ :: _ => simpa using h1
+    | [b0, b1] =>
+      simp only
+      cases hx : hdrExtraU (hdrFirstU b0 b1) with
+      | error e => simpa using h1
+      | ok extra =>
+        simp only
+        by_cases h0 : extra = 0
+        · simpa [h0] using h1
+        · simp only [h0, if_false]
+          have h2 := readFull_chunks s1 extra
+          rcases hr2 : s1.readFull extra with ⟨res2, s2⟩
+          rw [hr2] at h2
+          simp only at h2
+          cases res2 with
+          | error e => simp only; exact ⟨by omega, by rw [h2.2, h1.2]⟩
+          | ok bts => simp only; exact ⟨by omega, by rw [h2.2, h1.2]⟩
+
+theorem rfcSize_ge2 (h : Header) : 2 ≤ rfcSize h := by
+  unfold rfcSize; split <;> split <;> omega
+
+/-- Reading a header off any chunking of the transport: the header, not one byte more, and the
+    transport strictly smaller. -/
+theorem readHeader_ok (h : Header) (hw : h.WF) (tail : Bytes) (htw : Bytes.WF tail) (s : Src)
+    (hs : s.bytes = rfcEncode h ++ tail) (htame : Src.Tame s) :
+    ∃ s1, readHeaderUtil s = (.ok h, s1) ∧ s1.bytes = tail ∧ Src.Tame s1 ∧ mu s1 < mu s := by
+  obtain ⟨h1, h2, h3⟩ := C01.read_write h hw tail htw s hs
+  have hsrc := readHeaderUtil_src s
+  rw [C01.readers_agree] at hsrc
+  refine ⟨(readHeaderWs s).2, ?_, h2, ?_, ?_⟩
+  · rw [C01.readers_agree]; exact Prod.ext h1 rfl
+  · intro hd; rw [h3]; exact htame (by rw [← hsrc.2]; exact hd)
+  · unfold mu
+    rw [h2, hs, List.length_append, C01.rfc_len]
+    have := rfcSize_ge2 h
+    omega
+
+end Ws.RdProof
+
+namespace Ws.RdProof
+open Ws Ws.Spec
+
+/-! ### frames on the wire and NextFrame -/
+
+structure WFrame where
+  h : Header
+  wire : Bytes
+
+def WFrame.enc (f : WFrame) : Bytes := rfcEncode f.h ++ f.wire
+def encodeFs (fs : List WFrame) : Bytes := (fs.map WFrame.enc).flatten
+def WFrame.plain (f : WFrame) : Bytes := if f.h.masked then xorSpec f.wire f.h.mask 0 else f.wire
+
+structure WFrame.OK (f : WFrame) : Prop where
+  hwf : f.h.WF
+  len : f.wire.length = f.h.len
+  wwf : Bytes.WF f.wire
+  mwf : f.h.mask.WF
+
+theorem encodeFs_wf (fs : List WFrame) (h : ∀ f ∈ fs, f.OK) : Bytes.WF (encodeFs fs) := by
+  induction fs with
+  | nil => intro b hb; simp [encodeFs] at hb
+  | cons f fs ih =>
+    intro b hb
+    simp only [encodeFs, List.map_cons, List.flatten_cons, WFrame.enc, List.mem_append] at hb
+    rcases hb with (hb | hb) | hb
+    · exact C01.rfcEncode_wf f.h (h f (by simp)).hwf b hb
+    · exact (h f (by simp)).wwf b hb
+    · exact ih (fun g hg => h g (by simp [hg])) b hb
+
+/-- the reader accepts this header in its current state -/
+def Accepts (r : Rd) (h : Header) : Prop :=
+  (if r.skipCheck then none else checkHeader h r.state) = none ∧ ¬ (r.maxFrame > 0 ∧ h.len > r.maxFrame)
+
+/-- the reader after NextFrame installed a data frame -/
+def enter (r : Rd) (h : Header) : Rd :=
+  { r with rawN := h.len, masked := h.masked, mask := h.mask, cpos := 0, hasFrame := true,
+           utf8on := r.checkUTF8 && (h.op == opText || (r.fragmented && r.opCode == opText)),
+           opCode := if r.fragmented then r.opCode else h.op,
+           state := if h.fin then stClear r.state stFragmented else stSet r.state stFragmented }
+
+theorem nextFrame_data (r : Rd) (s s1 : Src) (cx : Ctx) (cb : Option Callback) (h : Header)
+    (hh : readHeaderUtil s = (.ok h, s1)) (ha : Accepts r h) (hext : r.ext = false)
+    (hdata : opIsControl h.op = false) :
+    r.nextFrame s cx cb = (some h, none, enter r h, s1, cx) := by
+  unfold Rd.nextFrame
+  simp only [hh, ha.1, ha.2, if_false, hext, Bool.false_eq_true]
+  simp only [Rd.fragmented, hdata, Bool.and_false, Bool.false_eq_true, if_false, enter]
+  by_cases hf : stIs r.state stFragmented = true
+  · simp [hf, hext]
+  · simp [hf, hext]
+
+/-- the reader after an intermediate control frame was skipped (no OnIntermediate) -/
+def skipCtl (r : Rd) (h : Header) : Rd :=
+  { r with rawN := 0, masked := h.masked, mask := h.mask, cpos := 0, utf8on := false }
+
+theorem nextFrame_ctl (r : Rd) (s s1 : Src) (cx : Ctx) (f : WFrame) (tail : Bytes)
+    (hh : readHeaderUtil s = (.ok f.h, s1)) (ha : Accepts r f.h) (hext : r.ext = false)
+    (hctl : opIsControl f.h.op = true) (hfrag : r.fragmented = true)
+    (hb : s1.bytes = f.wire ++ tail) (hlen : f.wire.length = f.h.len) (htame : Src.Tame s1) :
+    ∃ s3, r.nextFrame s cx none = (some f.h, none, skipCtl r f.h, s3, cx) ∧ s3.bytes = tail ∧ Src.Tame s3
+      ∧ mu s3 ≤ mu s1 := by
+  unfold Rd.nextFrame
+  simp only [hh, ha.1, ha.2, if_false, hext, Bool.false_eq_true]
+  have hfr : ({ r with ext := false, rawN := f.h.len, masked := f.h.masked, mask := f.h.mask, cpos := 0, utf8on := false } : Rd).fragmented = true := by
+    simpa [Rd.fragmented] using hfrag
+  simp only [hfr, hctl, Bool.and_self, if_true]
+  obtain ⟨s3, h1, h2, h3, h4, _⟩ := drainRaw_ok s1.fuel
+    ({ r with ext := false, rawN := f.h.len, masked := f.h.masked, mask := f.h.mask, cpos := 0, utf8on := false } : Rd)
+    s1 f.wire tail hb (by simp [hlen]) htame
+    (by unfold Src.fuel mu; omega)
+  refine ⟨s3, ?_, h2, h3, h4⟩
+  rw [h1]
+  simp [skipCtl, hext]
+
+end Ws.RdProof
+
+namespace Ws.RdProof
+open Ws Ws.Spec
+
+/-! ### a whole message: invariant and one-Read step -/
+
+def AcceptsAt (skip : Bool) (st maxF : Nat) (h : Header) : Prop :=
+  (if skip then none else checkHeader h st) = none ∧ ¬ (maxF > 0 ∧ h.len > maxF)
+
+/-- the frames that may follow the first fragment of an open message: control frames anywhere,
+    non-final fragments, and a final fragment last — each accepted in the fragmented state `st`. -/
+inductive Tail (skip : Bool) (st maxF : Nat) : List WFrame → Prop
+  | last (f : WFrame) : f.OK → opIsControl f.h.op = false → f.h.fin = true → AcceptsAt skip st maxF f.h →
+      Tail skip st maxF [f]
+  | cont (f : WFrame) (fs : List WFrame) : f.OK → opIsControl f.h.op = false → f.h.fin = false →
+      AcceptsAt skip st maxF f.h → Tail skip st maxF fs → Tail skip st maxF (f :: fs)
+  | ctl (f : WFrame) (fs : List WFrame) : f.OK → opIsControl f.h.op = true → AcceptsAt skip st maxF f.h →
+      Tail skip st maxF fs → Tail skip st maxF (f :: fs)
+
+/-- concatenation of the unmasked payloads of the data frames -/
+def dataPlain : List WFrame → Bytes
+  | [] => []
+  | f :: fs => (if opIsControl f.h.op then [] else f.plain) ++ dataPlain fs
+
+theorem Tail.allOK {skip st maxF fs} (h : Tail skip st maxF fs) : ∀ f ∈ fs, f.OK := by
+  induction h with
+  | last f hok => intro g hg; simp at hg; subst hg; exact hok
+  | cont f fs hok _ _ _ _ ih => intro g hg; simp at hg; rcases hg with rfl | hg; exact hok; exact ih g hg
+  | ctl f fs hok _ _ _ ih => intro g hg; simp at hg; rcases hg with rfl | hg; exact hok; exact ih g hg
+
+structure Common (skip : Bool) (st maxF : Nat) (r : Rd) (s : Src) : Prop where
+  ext : r.ext = false
+  u8 : r.checkUTF8 = false
+  skip : r.skipCheck = skip
+  maxF : r.maxFrame = maxF
+  tame : Src.Tame s
+  wf : Bytes.WF s.bytes
+  stF : stIs st stFragmented = true
+  stSet : stSet st stFragmented = st
+  stClr : stIs (stClear st stFragmented) stFragmented = false
+
+/-- where the reader stands inside a message whose remaining expected output is the last index -/
+inductive Sync (skip : Bool) (st maxF : Nat) (rest : Bytes) : Rd → Src → Bytes → Prop
+  | mid (r : Rd) (s : Src) (wire : Bytes) (fs : List WFrame) : Common skip st maxF r s →
+      InFrame r s wire (encodeFs fs ++ rest) → r.state = st → Tail skip st maxF fs →
+      Sync skip st maxF rest r s (plainOf r wire ++ dataPlain fs)
+  | lastFrame (r : Rd) (s : Src) (wire : Bytes) : Common skip st maxF r s →
+      InFrame r s wire rest → r.state = stClear st stFragmented →
+      Sync skip st maxF rest r s (plainOf r wire)
+  | between (r : Rd) (s : Src) (fs : List WFrame) : Common skip st maxF r s →
+      r.hasFrame = false → r.state = st → s.bytes = encodeFs fs ++ rest → Tail skip st maxF fs →
+      Sync skip st maxF rest r s (dataPlain fs)
+
+def weight (r : Rd) (s : Src) : Nat := mu s + (if r.hasFrame then 1 else 0)
+
+/-- the reader after the message: ready for the next NextFrame like a new reader -/
+structure Done (st : Nat) (r0 r : Rd) : Prop where
+  has : r.hasFrame = false
+  state : r.state = stClear st stFragmented
+  op : r.opCode = 0
+  u8 : r.utf8 = {}
+  raw : r.rawN = 0
+  u8on : r.utf8on = false
+  cfg : r.skipCheck = r0.skipCheck ∧ r.checkUTF8 = r0.checkUTF8 ∧ r.ext = r0.ext ∧ r.maxFrame = r0.maxFrame
+
+theorem plainOf_split (r : Rd) (wire : Bytes) (g : Nat) (hg : g ≤ wire.length) :
+    plainOf r (wire.take g) ++ plainOf (adv r g) (wire.drop g) = plainOf r wire := by
+  unfold plainOf adv
+  cases hm : r.masked
+  · simp
+  · simp only [if_true]
+    have := C02.xor_append (wire.take g) (wire.drop g) r.mask r.cpos
+    rw [List.take_append_drop] at this
+    rw [this, List.length_take, Nat.min_eq_left hg]
+
+theorem plainOf_take_all (r : Rd) (wire : Bytes) : plainOf r (wire.take wire.length) = plainOf r wire := by
+  rw [List.take_length]
+
+end Ws.RdProof
+
+namespace Ws.RdProof
+open Ws Ws.Spec
+
+theorem adv_fields (r : Rd) (g : Nat) :
+    (adv r g).hasFrame = r.hasFrame ∧ (adv r g).utf8on = r.utf8on ∧ (adv r g).mask = r.mask
+    ∧ (adv r g).state = r.state ∧ (adv r g).ext = r.ext ∧ (adv r g).checkUTF8 = r.checkUTF8
+    ∧ (adv r g).skipCheck = r.skipCheck ∧ (adv r g).maxFrame = r.maxFrame ∧ (adv r g).masked = r.masked
+    ∧ (adv r g).compressed = r.compressed := by
+  simp [adv]
+
+theorem common_of (skip st maxF) {r : Rd} {s : Src} (c : Common skip st maxF r s) (r' : Rd) (s' : Src)
+    (h1 : r'.ext = r.ext) (h2 : r'.checkUTF8 = r.checkUTF8) (h3 : r'.skipCheck = r.skipCheck)
+    (h4 : r'.maxFrame = r.maxFrame) (ht : Src.Tame s') (hw : Bytes.WF s'.bytes) : Common skip st maxF r' s' :=
+  ⟨by rw [h1, c.ext], by rw [h2, c.u8], by rw [h3, c.skip], by rw [h4, c.maxF], ht, hw, c.stF, c.stSet, c.stClr⟩
+
+/-- **One Read from inside a frame of an open or closing message.** -/
+theorem step_inframe (skip : Bool) (st maxF : Nat) (rest : Bytes) (r : Rd) (s : Src) (cx : Ctx) (cb : Option Callback)
+    (k : Nat) (hk : 0 < k) (rem : Bytes)
+    (hs : (∃ wire fs, Common skip st maxF r s ∧ InFrame r s wire (encodeFs fs ++ rest) ∧ r.state = st
+              ∧ Tail skip st maxF fs ∧ rem = plainOf r wire ++ dataPlain fs)
+          ∨ (∃ wire, Common skip st maxF r s ∧ InFrame r s wire rest ∧ r.state = stClear st stFragmented
+              ∧ rem = plainOf r wire)) :
+    ∃ bytes e r' s', r.read s cx k cb = some (bytes, bytes.length, e, r', s', cx) ∧ mu s' ≤ mu s ∧
+      ((e = none ∧ ∃ rem', rem = bytes ++ rem' ∧ Sync skip st maxF rest r' s' rem' ∧ weight r' s' < weight r s)
+       ∨ (e = some .eof ∧ rem = bytes ∧ s'.bytes = rest ∧ Src.Tame s' ∧ Done st r r')) := by
+  rcases hs with ⟨wire, fs, hc, hin, hst, htail, hrem⟩ | ⟨wire, hc, hin, hst, hrem⟩
+  · -- a non-final fragment
+    have hfrag : r.fragmented = true := by simp [Rd.fragmented, hst, hc.stF]
+    obtain ⟨g, s1, hg, hb, htame, hwf1, hmu, hsame, hread⟩ :=
+      read_inframe r s cx cb wire (encodeFs fs ++ rest) k hin hk (Or.inl hc.u8)
+    have hmule : mu s1 ≤ mu s := by
+      by_cases hz : wire.length = 0
+      · rw [hsame hz]; exact Nat.le_refl _
+      · exact Nat.le_of_lt (hmu (Nat.pos_of_ne_zero hz))
+    have hlen : (plainOf r (wire.take g)).length = g := by
+      rw [plainOf_length, List.length_take, Nat.min_eq_left hg]
+    obtain ⟨a1, a2, a3, a4, a5, a6, a7, a8, a9, a10⟩ := adv_fields r g
+    rcases hread with ⟨hlt, hrd⟩ | ⟨heq, hrd⟩
+    · refine ⟨_, none, adv r g, s1, by rw [hlen]; exact hrd, hmule, Or.inl ⟨rfl, plainOf (adv r g) (wire.drop g) ++ dataPlain fs, ?_, ?_, ?_⟩⟩
+      · rw [hrem, ← List.append_assoc, plainOf_split r wire g hg]
+      · refine Sync.mid (adv r g) s1 (wire.drop g) fs (common_of skip st maxF hc _ _ a5 a6 a7 a8 htame hwf1) ?_ (by rw [a4, hst]) htail
+        exact ⟨by rw [a1, hin.has], by rw [a2, hin.noU], hb, by simp [adv, hin.n], hwf1, by rw [a3]; exact hin.mwf, htame⟩
+      · unfold weight
+        rw [a1, hin.has]
+        have := hmu (by omega)
+        simp only [if_true]; omega
+    · -- the fragment ends: the frame slot is cleared, the message stays open
+      have hfr2 : (adv r g).fragmented = true := by simp [Rd.fragmented, a4, hst, hc.stF]
+      simp only [afterFrame, hfr2, if_true] at hrd
+      refine ⟨_, none, (adv r g).resetFragment, s1, by rw [hlen]; exact hrd, hmule, Or.inl ⟨rfl, dataPlain fs, ?_, ?_, ?_⟩⟩
+      · rw [hrem, heq, plainOf_take_all]
+      · refine Sync.between _ s1 fs ?_ (by simp [Rd.resetFragment]) (by simp [Rd.resetFragment, a4, hst]) ?_ htail
+        · exact common_of skip st maxF hc _ _ (by simp [Rd.resetFragment, a5]) (by simp [Rd.resetFragment, a6])
+            (by simp [Rd.resetFragment, a7]) (by simp [Rd.resetFragment, a8]) htame hwf1
+        · rw [hb, heq]; simp
+      · unfold weight
+        simp only [Rd.resetFragment, hin.has, if_true, Bool.false_eq_true, if_false]
+        omega
+  · -- the final fragment
+    have hfrag : r.fragmented = false := by simp [Rd.fragmented, hst, hc.stClr]
+    obtain ⟨g, s1, hg, hb, htame, hwf1, hmu, hsame, hread⟩ :=
+      read_inframe r s cx cb wire rest k hin hk (Or.inl hc.u8)
+    have hmule : mu s1 ≤ mu s := by
+      by_cases hz : wire.length = 0
+      · rw [hsame hz]; exact Nat.le_refl _
+      · exact Nat.le_of_lt (hmu (Nat.pos_of_ne_zero hz))
+    have hlen : (plainOf r (wire.take g)).length = g := by
+      rw [plainOf_length, List.length_take, Nat.min_eq_left hg]
+    obtain ⟨a1, a2, a3, a4, a5, a6, a7, a8, a9, a10⟩ := adv_fields r g
+    rcases hread with ⟨hlt, hrd⟩ | ⟨heq, hrd⟩
+    · refine ⟨_, none, adv r g, s1, by rw [hlen]; exact hrd, hmule, Or.inl ⟨rfl, plainOf (adv r g) (wire.drop g), ?_, ?_, ?_⟩⟩
+      · rw [hrem, plainOf_split r wire g hg]
+      · refine Sync.lastFrame (adv r g) s1 (wire.drop g) (common_of skip st maxF hc _ _ a5 a6 a7 a8 htame hwf1) ?_ (by rw [a4, hst])
+        exact ⟨by rw [a1, hin.has], by rw [a2, hin.noU], hb, by simp [adv, hin.n], hwf1, by rw [a3]; exact hin.mwf, htame⟩
+      · unfold weight
+        rw [a1, hin.has]
+        have := hmu (by omega)
+        simp only [if_true]; omega
+    · have hfr2 : (adv r g).fragmented = false := by simp [Rd.fragmented, a4, hst, hc.stClr]
+      simp only [afterFrame, hfr2, Bool.false_eq_true, if_false] at hrd
+      refine ⟨_, some .eof, (adv r g).reset, s1, by rw [hlen]; exact hrd, hmule, Or.inr ⟨rfl, ?_, ?_, htame, ?_⟩⟩
+      · rw [hrem, heq, plainOf_take_all]
+      · rw [hb, heq]; simp
+      · exact ⟨by simp [Rd.reset], by simp [Rd.reset, a4, hst], by simp [Rd.reset], by simp [Rd.reset],
+          by simp [Rd.reset], by simp [Rd.reset], by simp [Rd.reset, a7, a6, a5, a8]⟩
+
+end Ws.RdProof
+
+namespace Ws.RdProof
+open Ws Ws.Spec
+
+/-- a Read that first has to fetch the next fragment behaves like a Read on the reader that
+    NextFrame leaves -/
+theorem read_enter (r r5 : Rd) (s s1 : Src) (cx cx1 : Ctx) (cb : Option Callback) (k : Nat) (h : Option Header)
+    (hh : r.hasFrame = false) (hf : r.fragmented = true)
+    (hn : r.nextFrame s cx cb = (h, none, r5, s1, cx1)) (h5 : r5.hasFrame = true) :
+    r.read s cx k cb = r5.read s1 cx1 k cb := by
+  unfold Rd.read
+  simp [hh, hf, hn, h5]
+
+theorem read_skip (r r3 : Rd) (s s3 : Src) (cx cx1 : Ctx) (cb : Option Callback) (k : Nat) (h : Option Header)
+    (hh : r.hasFrame = false) (hf : r.fragmented = true)
+    (hn : r.nextFrame s cx cb = (h, none, r3, s3, cx1)) (h3 : r3.hasFrame = false) :
+    r.read s cx k cb = some ([], 0, none, r3, s3, cx1) := by
+  unfold Rd.read
+  simp [hh, hf, hn, h3]
+
+theorem wf_append_right {a b : Bytes} (h : Bytes.WF (a ++ b)) : Bytes.WF b :=
+  fun x hx => h x (List.mem_append.mpr (Or.inr hx))
+theorem wf_append_left {a b : Bytes} (h : Bytes.WF (a ++ b)) : Bytes.WF a :=
+  fun x hx => h x (List.mem_append.mpr (Or.inl hx))
+
+/-- **One Reader.Read anywhere inside a message** (OnIntermediate unset): it returns the next
+    piece of the expected output — possibly empty, e.g. when it only skipped an interleaved control
+    frame or an empty transport chunk — with no error, re-establishing the invariant on a strictly
+    smaller transport; or it returns the last piece together with io.EOF, the transport standing
+    exactly behind the message and the reader reset. No other outcome exists. -/
+theorem step (skip : Bool) (st maxF : Nat) (rest : Bytes) (r : Rd) (s : Src) (cx : Ctx) (k : Nat) (hk : 0 < k)
+    (rem : Bytes) (hs : Sync skip st maxF rest r s rem) :
+    ∃ bytes e r' s', r.read s cx k none = some (bytes, bytes.length, e, r', s', cx) ∧
+      ((e = none ∧ ∃ rem', rem = bytes ++ rem' ∧ Sync skip st maxF rest r' s' rem' ∧ weight r' s' < weight r s)
+       ∨ (e = some .eof ∧ rem = bytes ∧ s'.bytes = rest ∧ Src.Tame s' ∧ Done st r r')) := by
+  cases hs with
+  | mid wire fs hc hin hst htail =>
+    obtain ⟨b, e, r', s', h1, _, h2⟩ := step_inframe skip st maxF rest r s cx none k hk _
+      (Or.inl ⟨wire, fs, hc, hin, hst, htail, rfl⟩)
+    exact ⟨b, e, r', s', h1, h2⟩
+  | lastFrame wire hc hin hst =>
+    obtain ⟨b, e, r', s', h1, _, h2⟩ := step_inframe skip st maxF rest r s cx none k hk _
+      (Or.inr ⟨wire, hc, hin, hst, rfl⟩)
+    exact ⟨b, e, r', s', h1, h2⟩
+  | between fs hc hhas hst hb htail =>
+    have hfrag : r.fragmented = true := by simp [Rd.fragmented, hst, hc.stF]
+    have hw0 : weight r s = mu s := by simp [weight, hhas]
+    cases htail with
+    | ctl f fs' hok hctl hacc ht' =>
+      have hbytes : s.bytes = rfcEncode f.h ++ (f.wire ++ (encodeFs fs' ++ rest)) := by
+        rw [hb]; simp [encodeFs, WFrame.enc, List.append_assoc]
+      have hwt : Bytes.WF (f.wire ++ (encodeFs fs' ++ rest)) := by
+        have := hc.wf; rw [hbytes] at this; exact wf_append_right this
+      obtain ⟨s1, hrh, hb1, ht1, hmu1⟩ := readHeader_ok f.h hok.hwf _ hwt s hbytes hc.tame
+      have hacc' : Accepts r f.h := by
+        unfold Accepts; rw [hc.skip, hst, hc.maxF]; exact hacc
+      obtain ⟨s3, hnf, hb3, ht3, hmu3⟩ := nextFrame_ctl r s s1 cx f (encodeFs fs' ++ rest) hrh hacc' hc.ext hctl hfrag hb1 hok.len ht1
+      have hrd := read_skip r (skipCtl r f.h) s s3 cx cx none k (some f.h) hhas hfrag hnf (by simp [skipCtl, hhas])
+      refine ⟨[], none, skipCtl r f.h, s3, by simpa using hrd, Or.inl ⟨rfl, dataPlain fs', ?_, ?_, ?_⟩⟩
+      · simp [dataPlain, hctl]
+      · refine Sync.between _ s3 fs' ?_ (by simp [skipCtl, hhas]) (by simp [skipCtl, hst]) hb3 ht'
+        exact common_of skip st maxF hc _ _ (by simp [skipCtl]) (by simp [skipCtl]) (by simp [skipCtl]) (by simp [skipCtl]) ht3
+          (by rw [hb3]; exact wf_append_right hwt)
+      · rw [hw0]; simp only [weight, skipCtl, hhas, Bool.false_eq_true, if_false]; omega
+    | cont f fs' hok hdata hfin hacc ht' =>
+      have hbytes : s.bytes = rfcEncode f.h ++ (f.wire ++ (encodeFs fs' ++ rest)) := by
+        rw [hb]; simp [encodeFs, WFrame.enc, List.append_assoc]
+      have hwt : Bytes.WF (f.wire ++ (encodeFs fs' ++ rest)) := by
+        have := hc.wf; rw [hbytes] at this; exact wf_append_right this
+      obtain ⟨s1, hrh, hb1, ht1, hmu1⟩ := readHeader_ok f.h hok.hwf _ hwt s hbytes hc.tame
+      have hacc' : Accepts r f.h := by
+        unfold Accepts; rw [hc.skip, hst, hc.maxF]; exact hacc
+      have hnf := nextFrame_data r s s1 cx none f.h hrh hacc' hc.ext hdata
+      have hrd := read_enter r (enter r f.h) s s1 cx cx none k (some f.h) hhas hfrag hnf (by simp [enter])
+      have hc5 : Common skip st maxF (enter r f.h) s1 :=
+        common_of skip st maxF hc _ _ (by simp [enter]) (by simp [enter]) (by simp [enter]) (by simp [enter]) ht1 (by rw [hb1]; exact hwt)
+      have hin5 : InFrame (enter r f.h) s1 f.wire (encodeFs fs' ++ rest) :=
+        ⟨by simp [enter], by simp [enter, hc.u8], hb1, by simp [enter, hok.len], by rw [hb1]; exact hwt, by simp [enter]; exact hok.mwf, ht1⟩
+      have hst5 : (enter r f.h).state = st := by simp [enter, hfin, hst, hc.stSet]
+      obtain ⟨b, e, r', s', h1, hmle, h2⟩ := step_inframe skip st maxF rest (enter r f.h) s1 cx none k hk
+        (plainOf (enter r f.h) f.wire ++ dataPlain fs') (Or.inl ⟨f.wire, fs', hc5, hin5, hst5, ht', rfl⟩)
+      have hpl : plainOf (enter r f.h) f.wire = f.plain := rfl
+      refine ⟨b, e, r', s', by rw [hrd]; exact h1, ?_⟩
+      rcases h2 with ⟨he, rem', hr1, hr2, hr3⟩ | ⟨he, hr1, hr2, hr3, hr4⟩
+      · refine Or.inl ⟨he, rem', ?_, hr2, ?_⟩
+        · simp only [dataPlain, hdata, Bool.false_eq_true, if_false]; rw [← hpl]; exact hr1
+        · rw [hw0]
+          have : weight r' s' < mu s1 + 1 := by simpa [weight, enter] using hr3
+          omega
+      · refine Or.inr ⟨he, ?_, hr2, hr3, ?_⟩
+        · simp only [dataPlain, hdata, Bool.false_eq_true, if_false]; rw [← hpl]; exact hr1
+        · exact ⟨hr4.has, hr4.state, hr4.op, hr4.u8, hr4.raw, hr4.u8on, by simpa [enter] using hr4.cfg⟩
+    | last f hok hdata hfin hacc =>
+      have hbytes : s.bytes = rfcEncode f.h ++ (f.wire ++ rest) := by
+        rw [hb]; simp [encodeFs, WFrame.enc, List.append_assoc]
+      have hwt : Bytes.WF (f.wire ++ rest) := by
+        have := hc.wf; rw [hbytes] at this; exact wf_append_right this
+      obtain ⟨s1, hrh, hb1, ht1, hmu1⟩ := readHeader_ok f.h hok.hwf _ hwt s hbytes hc.tame
+      have hacc' : Accepts r f.h := by
+        unfold Accepts; rw [hc.skip, hst, hc.maxF]; exact hacc
+      have hnf := nextFrame_data r s s1 cx none f.h hrh hacc' hc.ext hdata
+      have hrd := read_enter r (enter r f.h) s s1 cx cx none k (some f.h) hhas hfrag hnf (by simp [enter])
+      have hc5 : Common skip st maxF (enter r f.h) s1 :=
+        common_of skip st maxF hc _ _ (by simp [enter]) (by simp [enter]) (by simp [enter]) (by simp [enter]) ht1 (by rw [hb1]; exact hwt)
+      have hin5 : InFrame (enter r f.h) s1 f.wire rest :=
+        ⟨by simp [enter], by simp [enter, hc.u8], hb1, by simp [enter, hok.len], by rw [hb1]; exact hwt, by simp [enter]; exact hok.mwf, ht1⟩
+      have hst5 : (enter r f.h).state = stClear st stFragmented := by simp [enter, hfin, hst]
+      obtain ⟨b, e, r', s', h1, hmle, h2⟩ := step_inframe skip st maxF rest (enter r f.h) s1 cx none k hk
+        (plainOf (enter r f.h) f.wire) (Or.inr ⟨f.wire, hc5, hin5, hst5, rfl⟩)
+      have hpl : plainOf (enter r f.h) f.wire = f.plain := rfl
+      refine ⟨b, e, r', s', by rw [hrd]; exact h1, ?_⟩
+      rcases h2 with ⟨he, rem', hr1, hr2, hr3⟩ | ⟨he, hr1, hr2, hr3, hr4⟩
+      · refine Or.inl ⟨he, rem', ?_, hr2, ?_⟩
+        · simp only [dataPlain, hdata, Bool.false_eq_true, if_false, List.append_nil]; rw [← hpl]; exact hr1
+        · rw [hw0]
+          have : weight r' s' < mu s1 + 1 := by simpa [weight, enter] using hr3
+          omega
+      · refine Or.inr ⟨he, ?_, hr2, hr3, ?_⟩
+        · simp only [dataPlain, hdata, Bool.false_eq_true, if_false, List.append_nil]; rw [← hpl]; exact hr1
+        · exact ⟨hr4.has, hr4.state, hr4.op, hr4.u8, hr4.raw, hr4.u8on, by simpa [enter] using hr4.cfg⟩
+
+end Ws.RdProof
+
+namespace Ws.RdProof
+open Ws Ws.Spec
+
+/-- the caller's loop: Read with buffers of sizes `ks` until the list is used up or Read reports
+    an error (io.EOF = end of message); returns everything Read handed out and the last error -/
+def reads : Rd → Src → Ctx → List Nat → Option (Bytes × Option RErr × Rd × Src × Ctx)
+  | r, s, cx, [] => some ([], none, r, s, cx)
+  | r, s, cx, k :: ks =>
+    match r.read s cx k none with
+    | none => none
+    | some (bytes, n, e, r', s', cx') =>
+      match e with
+      | some e => some (bytes.take n, some e, r', s', cx')
+      | none =>
+        match reads r' s' cx' ks with
+        | none => none
+        | some (o, e2, r2, s2, cx2) => some (bytes.take n ++ o, e2, r2, s2, cx2)
+
+/-- **Any sequence of Reads** with positive buffer sizes, from any point inside a message. -/
+theorem reads_sync (skip : Bool) (st maxF : Nat) (rest : Bytes) (ks : List Nat) (hpos : ∀ k ∈ ks, 0 < k)
+    (r : Rd) (s : Src) (cx : Ctx) (rem : Bytes) (hs : Sync skip st maxF rest r s rem) :
+    ∃ out e r' s', reads r s cx ks = some (out, e, r', s', cx) ∧
+      ((e = none ∧ ∃ rem', rem = out ++ rem' ∧ Sync skip st maxF rest r' s' rem' ∧ weight r' s' + ks.length ≤ weight r s)
+       ∨ (e = some .eof ∧ rem = out ∧ s'.bytes = rest ∧ Src.Tame s' ∧ Done st r r')) := by
+  induction ks generalizing r s rem with
+  | nil => exact ⟨[], none, r, s, rfl, Or.inl ⟨rfl, rem, by simp, hs, by simp⟩⟩
+  | cons k ks ih =>
+    obtain ⟨b, e, r1, s1, hrd, hcase⟩ := step skip st maxF rest r s cx k (hpos k (by simp)) rem hs
+    simp only [reads, hrd]
+    rcases hcase with ⟨he, rem1, hr1, hs1, hw1⟩ | ⟨he, hr1, hb1, ht1, hd1⟩
+    · subst he
+      obtain ⟨o, e2, r2, s2, hrd2, hcase2⟩ := ih (fun k' hk' => hpos k' (by simp [hk'])) r1 s1 rem1 hs1
+      simp only [hrd2, List.take_length]
+      refine ⟨b ++ o, e2, r2, s2, rfl, ?_⟩
+      rcases hcase2 with ⟨he2, rem2, hr2, hs2, hw2⟩ | ⟨he2, hr2, hb2, ht2, hd2⟩
+      · refine Or.inl ⟨he2, rem2, by rw [hr1, hr2, List.append_assoc], hs2, ?_⟩
+        simp only [List.length_cons]; omega
+      · refine Or.inr ⟨he2, by rw [hr1, hr2], hb2, ht2, ?_⟩
+        -- the configuration fields are constant along the message
+        have hcfg : r1.skipCheck = r.skipCheck ∧ r1.checkUTF8 = r.checkUTF8 ∧ r1.ext = r.ext ∧ r1.maxFrame = r.maxFrame := by
+          have c1 : Common skip st maxF r1 s1 := by cases hs1 <;> assumption
+          have c0 : Common skip st maxF r s := by cases hs <;> assumption
+          exact ⟨by rw [c1.skip, c0.skip], by rw [c1.u8, c0.u8], by rw [c1.ext, c0.ext], by rw [c1.maxF, c0.maxF]⟩
+        obtain ⟨g1, g2, g3, g5⟩ := hd2.cfg
+        exact ⟨hd2.has, hd2.state, hd2.op, hd2.u8, hd2.raw, hd2.u8on,
+          by rw [g1, hcfg.1], by rw [g2, hcfg.2.1], by rw [g3, hcfg.2.2.1], by rw [g5, hcfg.2.2.2]⟩
+    · subst he
+      simp only [List.take_length]
+      exact ⟨b, some .eof, r1, s1, rfl, Or.inr ⟨rfl, hr1, hb1, ht1, hd1⟩⟩
+
+end Ws.RdProof
